@@ -1,5 +1,5 @@
 SPECIFICATION Spec
-CONSTANTS Mode = "energy"  Variant = "metric_primal"  Family = "list"  List = { 1050107 }  Steps = 1
+CONSTANTS Mode = "energy"  Variant = "metric_primal"  Family = "list"  List = { 1050107 }  Steps = 1  PairMod = 7
           Extra = { 1010 }
 INVARIANT TypeOK
 INVARIANT EnergyBalance
